@@ -666,6 +666,29 @@ def covariance(run, it, tier):
                         "the variance adapter's structurally identical merge is proved for any number of chains by a loop invariant"})
 
 
+def large_offsets(run_):
+    """BOUNDED native stand-in for the clause `positions with large offsets relative to their spread`: the contracts above are over the reals,
+    where a centred (Welford / Chan) update and an uncentred second-moment formula are the same function; in double precision only the former
+    keeps its digits.  The real adapters are run on 24 positions at offset 1e8 with unit spread, over 9 partitions x 3 regularisation settings,
+    and compared with an extended-precision reference (relative 1e-5)."""
+    import os
+    import subprocess
+    script = os.path.join(core.VERIF, "replays", "c17_adapters.py")
+    try:
+        p = subprocess.run([core.NATIVE_PY, script, "offsets"], capture_output=True, text=True, timeout=600, env=dict(os.environ, PYTHONPATH=core.SRC))
+        out = p.stdout.strip()
+        ok = p.returncode == 0 and "not reproduced" in out
+        st = core.DISCHARGED if ok else (core.FAILED if "REPRODUCED" in out else core.ERROR)
+        detail = "" if ok else (out or p.stderr)[-600:]
+    except Exception as e:  # noqa: BLE001
+        st, detail = core.ERROR, f"{type(e).__name__}: {e}"
+    run_.ob("adapters.metric-adapters/pooled-estimate-accurate-at-large-offsets", st, "native-exec", klass="bounded", detail=detail,
+            witness=None if st == core.DISCHARGED else {"offset": 1e8},
+            replay=(lambda w: {"script": "c17_adapters.py", "args": ["offsets"], "timeout": 600}) if st == core.FAILED else None,
+            text="bounded: variance / covariance adapters at offset 1e8, unit spread, 9 partitions x 3 settings, agree with an extended-precision reference")
+    run_.bounded.append({"id": "C17/adapters.metric-adapters/pooled-estimate-accurate-at-large-offsets", "detail": "24 positions, offset 1e8, 9 partitions, 3 regularisation settings"})
+
+
 def run(run_, tier):
     it = make_interp(run_)
     run_.assume("A1: real arithmetic (numerical stability for large offsets is NOT decided); m^-kappa is written (1/m)^kappa as in the code (POW uninterpreted)")
@@ -675,5 +698,6 @@ def run(run_, tier):
     dual_averaging(run_, it)
     variance(run_, it)
     covariance(run_, it, tier)
+    large_offsets(run_)
     run_.extraction_drops.extend(sorted(it.dropped))
     run_.notes.append(f"paths explored: {it.paths}; solver seconds {it.solver_seconds:.2f}")
